@@ -198,6 +198,374 @@ Fixpoint match_chain (name : string) (s : string) (ms : list (list (Z * Z))) : c
       end
   end.
 
+
+(* ==== loop bodies of the evaluator as standalone functions over an abstract sub-evaluator
+   [evn : node -> ovalue -> M ovalue] (evaluate this node with that context item).  The big
+   fixpoint below instantiates [evn] with itself at smaller fuel; theorems about these functions
+   hold for every [evn]. ==== *)
+
+(* pure outcome of an operator once its operands are evaluated *)
+Definition pure_res (A : Type) := (A + err)%type.
+
+(* evalNumericOperator on evaluated operands: (value if a number, "is missing or a number") *)
+Definition num_side_of (v : ovalue) : option f64 * bool :=
+  match v with
+  | None => (None, true)
+  | Some (VNum x) => (Some x, true)
+  | Some _ => (None, false)
+  end.
+
+Definition numeric_result (op : numop) (l r : ovalue) : pure_res ovalue :=
+  let '(a, aok) := num_side_of l in
+  let '(b, bok) := num_side_of r in
+  if negb aok then inr (EEval ErrNonNumberLHS)
+  else if negb bok then inr (EEval ErrNonNumberRHS)
+  else match a, b with
+       | Some x, Some y =>
+           let z := num_apply op x y in
+           if is_inf z then inr (EEval ErrNumberInf)
+           else if is_nan z then inr (EEval ErrNumberNaN)
+           else inl (Some (VNum z))
+       | _, _ => inl None
+       end.
+
+Definition negation_result (v : ovalue) : pure_res ovalue :=
+  match v with
+  | None => inl None
+  | Some (VNum x) => inl (Some (VNum (fopp x)))
+  | Some _ => inr (EEval ErrNonNumberRHS)
+  end.
+
+(* evalComparisonOperator on evaluated operands; None = the explicit panic of lt *)
+Definition comparison_result (op : cmpop) (a b : ovalue) : option (pure_res ovalue) :=
+  let comparable := fun v => is_number v || is_string v in
+  let need := match op with CmpEq | CmpNe | CmpIn => false | _ => true end in
+  if need && (match a with Some _ => negb (comparable a) | None => false end)
+  then Some (inr (EEval ErrNonComparableLHS))
+  else if need && (match b with Some _ => negb (comparable b) | None => false end)
+  then Some (inr (EEval ErrNonComparableRHS))
+  else if need && (match a, b with
+                   | Some _, Some _ => negb (Bool.eqb (is_number a) (is_number b))
+                   | _, _ => false end)
+  then Some (inr (EEval ErrTypeMismatch))
+  else match a, b with
+       | Some x, Some y =>
+           let vb := fun t : bool => Some (inl (Some (VBool t))) in
+           match op with
+           | CmpIn => vb (in_values x y)
+           | CmpEq => vb (eq_values x y)
+           | CmpNe => vb (negb (eq_values x y))
+           | CmpLt => match lt_values x y with Some t => vb t | None => None end
+           | CmpLe => match lt_values x y with Some t => vb (t || eq_values x y) | None => None end
+           | CmpGt => match lt_values x y with Some t => vb (negb (t || eq_values x y)) | None => None end
+           | CmpGe => match lt_values x y with Some t => vb (negb t) | None => None end
+           end
+       | _, _ => Some (inl (Some (VBool false)))
+       end.
+
+Definition boolean_result (op : boolop) (a b : ovalue) : ovalue :=
+  Some (VBool (match op with
+               | BoolAnd => otruthy a && otruthy b
+               | BoolOr => otruthy a || otruthy b
+               end)).
+
+(* evalRange on evaluated bounds *)
+Definition range_result (l r : ovalue) : pure_res ovalue :=
+  let is_int := fun v => match v with Some (VNum x) => f_is_integer x | _ => false end in
+  match l, r with
+  | Some _, _ =>
+      if negb (is_int l) then inr (EEval ErrNonIntegerLHS)
+      else match r with
+           | Some _ =>
+               if negb (is_int r) then inr (EEval ErrNonIntegerRHS) else
+               match l, r with
+               | Some (VNum a), Some (VNum b) =>
+                   if fltb b a then inl None else
+                   let size := (go_int (fsub b a) + 1)%Z in
+                   if (size <? 0)%Z || (max_range_items <? size)%Z
+                   then inr (EEval ErrMaxRangeItems)
+                   else inl (Some (VArr (range_items (Z.to_nat size) a)))
+               | _, _ => inl None
+               end
+           | None => inl None
+           end
+  | None, Some _ => if negb (is_int r) then inr (EEval ErrNonIntegerRHS) else inl None
+  | None, None => inl None
+  end.
+
+Definition lift_pure {A} (r : pure_res A) : M A :=
+  match r with inl a => ret a | inr e => fail e end.
+
+(* applyFilter: evaluate the filter once per item, keep the selected copies *)
+Fixpoint filter_loop (ev1 : ovalue -> M ovalue) (n : nat) (l : list value) (i : nat) : M (list value) :=
+  match l with
+  | [] => ret []
+  | x :: r =>
+      res <- ev1 (Some x) ;;
+      rest <- filter_loop ev1 n r (S i) ;;
+      ret (repeat x (filter_copies n i res) ++ rest)
+  end.
+
+(* evalPredicate: successive filters on the survivors; nothing kept = no value *)
+Fixpoint predicate_loop (flt : node -> list value -> M (list value)) (fs : list node) (cur : list value)
+  : M ovalue :=
+  match fs with
+  | [] => ret (Some (normalize_array cur))
+  | f1 :: rest =>
+      kept <- flt f1 cur ;;
+      match kept with
+      | [] => ret None
+      | _ => predicate_loop flt rest kept
+      end
+  end.
+
+(* evalArray *)
+Definition array_items (evn : node -> M ovalue) (items : list node) : M (list value) :=
+  rs <- mapM (fun it =>
+                v <- evn it ;;
+                ret (match v with
+                     | None => []
+                     | Some x => if is_array_node it then [x] else arrayify (Some x)
+                     end)) items ;;
+  ret (List.concat rs).
+
+(* one step of evalPath (evalPathStep, or eval for a leading array constructor):
+   None = the path has no value *)
+Definition path_step (evn : node -> ovalue -> M ovalue) (first last : bool) (st : node) (out : pout)
+  : M (option pout) :=
+  if first && is_array_node st then
+    v <- evn st (Some (VArr (map (fun o => match o with Some x => x | None => VNull end) (pout_items out)))) ;;
+    ret (match v with
+         | None => None
+         | Some (VArr []) => None
+         | Some (VArr l) => Some (PSl (map Some l))
+         | Some x => Some (PSl [Some x])
+         end)
+  else
+    rs <- mapM (fun it => evn st it) (pout_items out) ;;
+    let results := somes rs in
+    ret (match results with
+         | [VArr l] =>
+             if last then
+               match l with
+               | [] => None
+               | _ => Some (PSl (map Some l))
+               end
+             else
+               let items := if is_array_node st then results else l in
+               match items with
+               | [] => None
+               | _ => Some (PSq items)
+               end
+         | _ =>
+             let items := if is_array_node st then results
+                          else flat_map (fun v => arrayify (Some v)) results in
+             match items with
+             | [] => None
+             | _ => Some (PSq items)
+             end
+         end).
+
+Fixpoint path_loop (evn : node -> ovalue -> M ovalue) (keep first : bool) (ss : list node) (out : pout)
+  : M ovalue :=
+  match ss with
+  | [] =>
+      ret (match out with
+           | PSq l => collapse keep l
+           | PSl l => Some (VArr (somes l))
+           end)
+  | st :: rest =>
+      let last := match rest with [] => true | _ => false end in
+      o <- path_step evn first last st out ;;
+      match o with
+      | None => ret None
+      | Some out' => path_loop evn keep false rest out'
+      end
+  end.
+
+Definition path_start (steps : list node) (input : ovalue) : pout :=
+  let is_var := match steps with
+                | NVariable _ :: _ => true
+                | NPredicate (NVariable _) _ :: _ => true
+                | _ => false
+                end in
+  if is_var || negb (is_array input) then PSl [input]
+  else PSl (map Some (arrayify input)).
+
+(* groupItemsByKey: key -> (pair index, item indexes), in order of first appearance *)
+Definition groups_t := list (string * (nat * list nat)).
+
+Fixpoint group_items (evn : node -> ovalue -> M ovalue) (k : node) (i : nat) (its : list ovalue) (j : nat)
+         (acc : groups_t) : M groups_t :=
+  match its with
+  | [] => ret acc
+  | it :: r =>
+      v <- evn k it ;;
+      match v with
+      | Some (VStr key) =>
+          match assoc_get key acc with
+          | None => group_items evn k i r (S j) (acc ++ [(key, (i, [j]))])
+          | Some (p, idxs) =>
+              if negb (p =? i) then fail (EEval ErrDuplicateKey)
+              else group_items evn k i r (S j) (assoc_set key (i, idxs ++ [j]) acc)
+          end
+      | _ => fail (EEval ErrIllegalKey)
+      end
+  end.
+
+Fixpoint group_pairs (evn : node -> ovalue -> M ovalue) (items : list ovalue) (ps : list (node * node)) (i : nat)
+         (acc : groups_t) : M groups_t :=
+  match ps with
+  | [] => ret acc
+  | (k, _) :: rest =>
+      match k with
+      | NString key =>
+          match assoc_get key acc with
+          | Some _ => fail (EEval ErrDuplicateKey)
+          | None => group_pairs evn items rest (S i) (acc ++ [(key, (i, []))])
+          end
+      | _ =>
+          acc' <- group_items evn k i items 0 acc ;;
+          group_pairs evn items rest (S i) acc'
+      end
+  end.
+
+(* evalObject *)
+Definition object_with (evn : node -> ovalue -> M ovalue) (pairs : list (node * node)) (data : ovalue)
+  : M ovalue :=
+  let items : list ovalue := match data with
+                             | Some (VArr l) => map Some l
+                             | _ => [data]
+                             end in
+  let nitems := List.length items in
+  groups <- group_pairs evn items pairs 0 [] ;;
+  (* Go iterates the key map in unspecified order; the model uses key order *)
+  members <-
+    mapM (fun g : string * (nat * list nat) =>
+            let '(key, (p, idxs)) := g in
+            let sel : list ovalue :=
+              let n := List.length idxs in
+              if negb (n =? 0) && negb (n =? nitems)
+              then map (fun j => nth j items None) idxs
+              else items in
+            let arg := Some (VArr (map (fun o => match o with Some x => x | None => VNull end) sel)) in
+            match nth_error pairs p with
+            | Some (_, vn) =>
+                v <- evn vn arg ;;
+                ret (match v with Some x => [(key, x)] | None => [] end)
+            | None => ret []
+            end)
+         (stable_sort (fun a b => sltb (fst a) (fst b)) groups) ;;
+  ret (Some (VObj (obj_of_list (List.concat members)))).
+
+(* buildSortInfo: the key tuple of every item; per term 0 = no value seen yet, 1 = numbers,
+   2 = strings *)
+Fixpoint sort_keys (evn : node -> ovalue -> M ovalue) (it : value) (ts : list (sortdir * node)) (ks : list nat)
+  : M (list ovalue * list nat) :=
+  match ts, ks with
+  | (_, te) :: tr, k :: kr =>
+      v <- evn te (Some it) ;;
+      match v with
+      | None => '(vs, ks') <- sort_keys evn it tr kr ;; ret (None :: vs, k :: ks')
+      | Some (VNum _) =>
+          if k =? 2 then fail (EEval ErrSortMismatch)
+          else '(vs, ks') <- sort_keys evn it tr kr ;; ret (v :: vs, 1 :: ks')
+      | Some (VStr _) =>
+          if k =? 1 then fail (EEval ErrSortMismatch)
+          else '(vs, ks') <- sort_keys evn it tr kr ;; ret (v :: vs, 2 :: ks')
+      | Some _ => fail (EEval ErrNonSortable)
+      end
+  | _, _ => ret ([], [])
+  end.
+
+Definition sort_info (evn : node -> ovalue -> M ovalue) (terms : list (sortdir * node)) (l : list value)
+  : M (list (value * list ovalue)) :=
+  '(info, _) <-
+    foldM (fun (st : list (value * list ovalue) * list nat) (it : value) =>
+             let '(acc, kinds) := st in
+             '(vals, kinds') <- sort_keys evn it terms kinds ;;
+             ret (acc ++ [(it, vals)], kinds'))
+          ([], map (fun _ => 0) terms) l ;;
+  ret info.
+
+(* makeLessFunc on key tuples *)
+Fixpoint sort_less (ts : list sortdir) (va vb : list ovalue) : bool :=
+  match ts, va, vb with
+  | dir :: tr, x :: ra, y :: rb =>
+      match x, y with
+      | None, None => sort_less tr ra rb
+      | None, _ => false
+      | _, None => true
+      | Some p, Some q =>
+          if eq_values p q then sort_less tr ra rb
+          else match dir with
+               | SortDescending => match lt_values q p with Some t => t | None => false end
+               | _ => match lt_values p q with Some t => t | None => false end
+               end
+      end
+  | _, _, _ => false
+  end.
+
+Definition sorted_items (terms : list (sortdir * node)) (info : list (value * list ovalue)) : ovalue :=
+  Some (normalize_array (map fst (stable_sort (fun a b => sort_less (map fst terms) (snd a) (snd b)) info))).
+
+(* lambdaCallable.validateArgs: the argument list the body sees, or the error *)
+Definition lambda_args (vfuel : nat) (params : list param) (lctx : ovalue) (fname : string) (argv : list ovalue)
+  : pure_res (list ovalue) :=
+  let argc := List.length argv in
+  let pc := List.length params in
+  let argv1 := if (argc <? pc) && (match params with p :: _ => is_contextable p | [] => false end)
+               then lctx :: argv else argv in
+  let argv2 := pad_lambda_optionals params argv1 in
+  let n := List.length argv2 in
+  let isvar := match rev params with p :: _ => is_variadic p | [] => false end in
+  if (n <? pc) || ((pc <? n) && negb isvar) then inr (EArgCount fname) else
+  let checked :=
+    (fix chk (l : list ovalue) (i : nat) : pure_res (list ovalue) :=
+       match l with
+       | [] => inl []
+       | None :: r => match chk r (S i) with inl t => inl (None :: t) | inr e => inr e end
+       | Some a :: r =>
+           let p := nth i params (last params (Param 0 OptNone None)) in
+           let a' := if N.eqb (param_typ p) PT_array then VArr (arrayify (Some a)) else a in
+           if (match params with [] => false | _ => valid_arg_type vfuel a' p end)
+           then match chk r (S i) with inl t => inl (Some a' :: t) | inr e => inr e end
+           else inr (EArgType fname (S i))
+       end) argv2 0 in
+  match checked with
+  | inr e => inr e
+  | inl checked =>
+      (* wrapVariadicArgs: a missing argument leaves its slot nil *)
+      if isvar then
+        let fixed := firstn (pc - 1) checked in
+        let vars := skipn (pc - 1) checked in
+        inl (fixed ++ [Some (VArr (map (fun o => match o with Some x => x | None => VNull end) vars))])
+      else inl checked
+  end.
+
+(* partialCallable.Call: placeholders filled left to right, fixed arguments evaluated *)
+Definition partial_args (evn : node -> M ovalue) (pargs : list node) (argv : list ovalue) : M (list ovalue) :=
+  '(args, _) <-
+    foldM (fun (st : list ovalue * list ovalue) (a : node) =>
+             let '(acc, rest) := st in
+             if is_placeholder a then
+               match rest with
+               | v :: r => ret (acc ++ [v], r)
+               | [] => ret (acc ++ [None], [])
+               end
+             else v <- evn a ;; ret (acc ++ [v], rest))
+          ([], argv) pargs ;;
+  ret args.
+
+(* lambdaCallable.Call: bind parameters (missing = no value, surplus ignored) *)
+Fixpoint bind_params (env : nat) (names : list string) (vals : list ovalue) : M unit :=
+  match names with
+  | [] => ret tt
+  | x :: r =>
+      let '(v, vr) := match vals with v :: vr => (v, vr) | [] => (None, []) end in
+      _ <- bind_var env x v ;; bind_params env r vr
+  end.
+
 Definition regex_key (src subj : string) : string :=
   ("RE:" ++ hex_of_string src ++ ":" ++ hex_of_string subj)%string.
 Definition pow_key (x y : f64) : string :=
@@ -290,13 +658,7 @@ Section Eval.
     | S f =>
         let ev := eval f in
         let cl := call f in
-        let num_side := fun (nd : node) =>
-          v <- ev nd input env ;;
-          ret (match v with
-               | None => (None, true)
-               | Some (VNum x) => (Some x, true)
-               | Some _ => (None, false)      (* defined but not a number *)
-               end) in
+        let evn := fun (nd : node) (it : ovalue) => ev nd it env in
         match n with
         | NString s => ret (Some (VStr s))
         | NNumber x => ret (Some (VNum x))
@@ -317,41 +679,14 @@ Section Eval.
         | NPath steps keep => eval_path f steps keep input env
         | NNegation rhs =>
             v <- ev rhs input env ;;
-            match v with
-            | None => ret None
-            | Some (VNum x) => ret (Some (VNum (fopp x)))
-            | Some _ => fail (EEval ErrNonNumberRHS)
-            end
+            lift_pure (negation_result v)
         | NRange lhs rhs =>
             l <- ev lhs input env ;;
             r <- ev rhs input env ;;
-            let is_int := fun v => match v with Some (VNum x) => f_is_integer x | _ => false end in
-            match l, r with
-            | Some _, _ => if negb (is_int l) then fail (EEval ErrNonIntegerLHS)
-                           else match r with
-                                | Some _ => if negb (is_int r) then fail (EEval ErrNonIntegerRHS) else
-                                    match l, r with
-                                    | Some (VNum a), Some (VNum b) =>
-                                        if fltb b a then ret None else
-                                        let size := (go_int (fsub b a) + 1)%Z in
-                                        if (size <? 0)%Z || (max_range_items <? size)%Z
-                                        then fail (EEval ErrMaxRangeItems)
-                                        else ret (Some (VArr (range_items (Z.to_nat size) a)))
-                                    | _, _ => ret None
-                                    end
-                                | None => ret None
-                                end
-            | None, Some _ => if negb (is_int r) then fail (EEval ErrNonIntegerRHS) else ret None
-            | None, None => ret None
-            end
+            lift_pure (range_result l r)
         | NArray items =>
-            rs <- mapM (fun it =>
-                          v <- ev it input env ;;
-                          ret (match v with
-                               | None => []
-                               | Some x => if is_array_node it then [x] else arrayify (Some x)
-                               end)) items ;;
-            ret (Some (VArr (List.concat rs)))
+            l <- array_items (fun it => ev it input env) items ;;
+            ret (Some (VArr l))
         | NObject pairs => eval_object f pairs input env
         | NBlock exprs =>
             env' <- new_frame (Some env) ;;
@@ -374,17 +709,7 @@ Section Eval.
             items <- ev e input env ;;
             match items with
             | None => ret None
-            | Some _ =>
-                (fix go (fs : list node) (cur : list value) : M ovalue :=
-                   match fs with
-                   | [] => ret (Some (normalize_array cur))
-                   | flt :: rest =>
-                       kept <- apply_filter f flt cur env ;;
-                       match kept with
-                       | [] => ret None
-                       | _ => go rest kept
-                       end
-                   end) filters (arrayify items)
+            | Some _ => predicate_loop (fun flt cur => apply_filter f flt cur env) filters (arrayify items)
             end
         | NGroup e pairs =>
             items <- ev e input env ;;
@@ -398,52 +723,20 @@ Section Eval.
             _ <- bind_var env name v ;;
             ret v
         | NNumeric op lhs rhs =>
-            '(a, aok) <- num_side lhs ;;
-            '(b, bok) <- num_side rhs ;;
-            if negb aok then fail (EEval ErrNonNumberLHS)
-            else if negb bok then fail (EEval ErrNonNumberRHS)
-            else match a, b with
-                 | Some x, Some y =>
-                     let z := num_apply op x y in
-                     if is_inf z then fail (EEval ErrNumberInf)
-                     else if is_nan z then fail (EEval ErrNumberNaN)
-                     else ret (Some (VNum z))
-                 | _, _ => ret None
-                 end
+            a <- ev lhs input env ;;
+            b <- ev rhs input env ;;
+            lift_pure (numeric_result op a b)
         | NComparison op lhs rhs =>
             a <- ev lhs input env ;;
             b <- ev rhs input env ;;
-            let comparable := fun v => is_number v || is_string v in
-            let need := match op with CmpEq | CmpNe | CmpIn => false | _ => true end in
-            if need && (match a with Some _ => negb (comparable a) | None => false end)
-            then fail (EEval ErrNonComparableLHS)
-            else if need && (match b with Some _ => negb (comparable b) | None => false end)
-            then fail (EEval ErrNonComparableRHS)
-            else if need && (match a, b with
-                             | Some _, Some _ => negb (Bool.eqb (is_number a) (is_number b))
-                             | _, _ => false end)
-            then fail (EEval ErrTypeMismatch)
-            else match a, b with
-                 | Some x, Some y =>
-                     let ltv := fun p q => match lt_values p q with Some t => ret t | None => panic "lt: invalid types" end in
-                     match op with
-                     | CmpIn => ret (Some (VBool (in_values x y)))
-                     | CmpEq => ret (Some (VBool (eq_values x y)))
-                     | CmpNe => ret (Some (VBool (negb (eq_values x y))))
-                     | CmpLt => t <- ltv x y ;; ret (Some (VBool t))
-                     | CmpLe => t <- ltv x y ;; ret (Some (VBool (t || eq_values x y)))
-                     | CmpGt => t <- ltv x y ;; ret (Some (VBool (negb (t || eq_values x y))))
-                     | CmpGe => t <- ltv x y ;; ret (Some (VBool (negb t)))
-                     end
-                 | _, _ => ret (Some (VBool false))
-                 end
+            match comparison_result op a b with
+            | Some r => lift_pure r
+            | None => panic "lt: invalid types"
+            end
         | NBoolOp op lhs rhs =>
             a <- ev lhs input env ;;
             b <- ev rhs input env ;;
-            ret (Some (VBool (match op with
-                              | BoolAnd => otruthy a && otruthy b
-                              | BoolOr => otruthy a || otruthy b
-                              end)))
+            ret (boolean_result op a b)
         | NConcat lhs rhs =>
             a <- ev lhs input env ;;
             b <- ev rhs input env ;;
@@ -478,57 +771,7 @@ Section Eval.
     | S f =>
         match steps with
         | [] => ret None
-        | s0 :: _ =>
-            let is_var := match s0 with
-                          | NVariable _ => true
-                          | NPredicate (NVariable _) _ => true
-                          | _ => false
-                          end in
-            let out0 := if is_var || negb (is_array input) then PSl [input]
-                        else PSl (map Some (arrayify input)) in
-            (fix loop (first : bool) (ss : list node) (out : pout) : M ovalue :=
-               match ss with
-               | [] =>
-                   ret (match out with
-                        | PSq l => collapse keep l
-                        | PSl l => Some (VArr (somes l))
-                        end)
-               | st :: rest =>
-                   let last := match rest with [] => true | _ => false end in
-                   if first && is_array_node st then
-                     v <- eval f st (Some (VArr (map (fun o => match o with Some x => x | None => VNull end)
-                                                     (pout_items out)))) env ;;
-                     match v with
-                     | None => ret None
-                     | Some (VArr []) => ret None
-                     | Some (VArr l) => loop false rest (PSl (map Some l))
-                     | Some x => loop false rest (PSl [Some x])
-                     end
-                   else
-                     rs <- mapM (fun it => eval f st it env) (pout_items out) ;;
-                     let results := somes rs in
-                     match results with
-                     | [VArr l] =>
-                         if last then
-                           match l with
-                           | [] => ret None
-                           | _ => loop false rest (PSl (map Some l))
-                           end
-                         else
-                           let items := if is_array_node st then results else l in
-                           match items with
-                           | [] => ret None
-                           | _ => loop false rest (PSq items)
-                           end
-                     | _ =>
-                         let items := if is_array_node st then results
-                                      else flat_map (fun v => arrayify (Some v)) results in
-                         match items with
-                         | [] => ret None
-                         | _ => loop false rest (PSq items)
-                         end
-                     end
-               end) true steps out0
+        | _ => path_loop (fun st it => eval f st it env) keep true steps (path_start steps input)
         end
     end
 
@@ -538,65 +781,7 @@ Section Eval.
     match fuel with
     | O => fun _ => OutOfFuel
     | S f =>
-        (* makeArray *)
-        let items : list ovalue := match data with
-                                   | Some (VArr l) => map Some l
-                                   | _ => [data]
-                                   end in
-        let nitems := List.length items in
-        (* groups : key -> (pair index, item indexes) in order of first appearance *)
-        groups <-
-          (fix over_pairs (ps : list (node * node)) (i : nat)
-               (acc : list (string * (nat * list nat))) : M (list (string * (nat * list nat))) :=
-             match ps with
-             | [] => ret acc
-             | (k, _) :: rest =>
-                 match k with
-                 | NString key =>
-                     match assoc_get key acc with
-                     | Some _ => fail (EEval ErrDuplicateKey)
-                     | None => over_pairs rest (S i) (acc ++ [(key, (i, []))])
-                     end
-                 | _ =>
-                     acc' <-
-                       (fix over_items (its : list ovalue) (j : nat)
-                            (acc : list (string * (nat * list nat))) : M (list (string * (nat * list nat))) :=
-                          match its with
-                          | [] => ret acc
-                          | it :: r =>
-                              v <- eval f k it env ;;
-                              match v with
-                              | Some (VStr key) =>
-                                  match assoc_get key acc with
-                                  | None => over_items r (S j) (acc ++ [(key, (i, [j]))])
-                                  | Some (p, idxs) =>
-                                      if negb (p =? i) then fail (EEval ErrDuplicateKey)
-                                      else over_items r (S j) (assoc_set key (i, idxs ++ [j]) acc)
-                                  end
-                              | _ => fail (EEval ErrIllegalKey)
-                              end
-                          end) items 0 acc ;;
-                     over_pairs rest (S i) acc'
-                 end
-             end) pairs 0 [] ;;
-        (* Go iterates the key map in unspecified order; the model uses key order *)
-        members <-
-          mapM (fun g : string * (nat * list nat) =>
-                  let '(key, (p, idxs)) := g in
-                  let sel : list ovalue :=
-                    let n := List.length idxs in
-                    if negb (n =? 0) && negb (n =? nitems)
-                    then map (fun j => nth j items None) idxs
-                    else items in
-                  let arg := Some (VArr (map (fun o => match o with Some x => x | None => VNull end) sel)) in
-                  match nth_error pairs p with
-                  | Some (_, vn) =>
-                      v <- eval f vn arg env ;;
-                      ret (match v with Some x => [(key, x)] | None => [] end)
-                  | None => ret []
-                  end)
-               (stable_sort (fun a b => sltb (fst a) (fst b)) groups) ;;
-        ret (Some (VObj (obj_of_list (List.concat members))))
+        object_with (fun nd it => eval f nd it env) pairs data
     end
 
   (* applyFilter *)
@@ -605,15 +790,7 @@ Section Eval.
     match fuel with
     | O => fun _ => OutOfFuel
     | S f =>
-        let n := List.length items in
-        (fix go (l : list value) (i : nat) : M (list value) :=
-           match l with
-           | [] => ret []
-           | x :: r =>
-               res <- eval f flt (Some x) env ;;
-               rest <- go r (S i) ;;
-               ret (repeat x (filter_copies n i res) ++ rest)
-           end) items 0
+        filter_loop (fun it => eval f flt it env) (List.length items) items 0
     end
 
   (* evalSort / buildSortInfo / makeLessFunc *)
@@ -626,49 +803,8 @@ Section Eval.
         match items with
         | None => ret None
         | Some _ =>
-            let l := arrayify items in
-            (* per term: 0 = no value seen yet, 1 = numbers, 2 = strings *)
-            '(info, _) <-
-              foldM (fun (st : list (value * list ovalue) * list nat) (it : value) =>
-                       let '(acc, kinds) := st in
-                       '(vals, kinds') <-
-                         (fix over (ts : list (sortdir * node)) (ks : list nat)
-                            : M (list ovalue * list nat) :=
-                            match ts, ks with
-                            | (_, te) :: tr, k :: kr =>
-                                v <- eval f te (Some it) env ;;
-                                match v with
-                                | None => '(vs, ks') <- over tr kr ;; ret (None :: vs, k :: ks')
-                                | Some (VNum _) =>
-                                    if k =? 2 then fail (EEval ErrSortMismatch)
-                                    else '(vs, ks') <- over tr kr ;; ret (v :: vs, 1 :: ks')
-                                | Some (VStr _) =>
-                                    if k =? 1 then fail (EEval ErrSortMismatch)
-                                    else '(vs, ks') <- over tr kr ;; ret (v :: vs, 2 :: ks')
-                                | Some _ => fail (EEval ErrNonSortable)
-                                end
-                            | _, _ => ret ([], [])
-                            end) terms kinds ;;
-                       ret (acc ++ [(it, vals)], kinds'))
-                    ([], map (fun _ => 0) terms) l ;;
-            let less := fun (a b : value * list ovalue) =>
-              (fix lt (ts : list (sortdir * node)) (va vb : list ovalue) : bool :=
-                 match ts, va, vb with
-                 | (dir, _) :: tr, x :: ra, y :: rb =>
-                     match x, y with
-                     | None, None => lt tr ra rb
-                     | None, _ => false
-                     | _, None => true
-                     | Some p, Some q =>
-                         if eq_values p q then lt tr ra rb
-                         else match dir with
-                              | SortDescending => match lt_values q p with Some t => t | None => false end
-                              | _ => match lt_values p q with Some t => t | None => false end
-                              end
-                     end
-                 | _, _, _ => false
-                 end) terms (snd a) (snd b) in
-            ret (Some (normalize_array (map fst (stable_sort less info))))
+            info <- sort_info (fun nd it => eval f nd it env) terms (arrayify items) ;;
+            ret (sorted_items terms info)
         end
     end
 
@@ -714,55 +850,13 @@ Section Eval.
               match sg with
               | None => ret argv
               | Some params =>
-                  let argc := List.length argv in
-                  let pc := List.length params in
-                  let argv1 := if (argc <? pc) && (match params with p :: _ => is_contextable p | [] => false end)
-                               then lctx :: argv else argv in
-                  let argv2 := pad_lambda_optionals params argv1 in
-                  let n := List.length argv2 in
-                  let isvar := match rev params with p :: _ => is_variadic p | [] => false end in
-                  let fname := match nm with Some x => x | None => "lambda" end in
-                  if (n <? pc) || ((pc <? n) && negb isvar) then fail (EArgCount fname) else
-                  checked <-
-                    (fix chk (l : list ovalue) (i : nat) : M (list ovalue) :=
-                       match l with
-                       | [] => ret []
-                       | None :: r => t <- chk r (S i) ;; ret (None :: t)
-                       | Some a :: r =>
-                           let p := nth i params (last params (Param 0 OptNone None)) in
-                           let a' := if N.eqb (param_typ p) PT_array then VArr (arrayify (Some a)) else a in
-                           if (match params with [] => false | _ => valid_arg_type (S (S f)) a' p end)
-                           then t <- chk r (S i) ;; ret (Some a' :: t)
-                           else fail (EArgType fname (S i))
-                       end) argv2 0 ;;
-                  (* wrapVariadicArgs *)
-                  if isvar then
-                    let fixed := firstn (pc - 1) checked in
-                    let vars := skipn (pc - 1) checked in
-                    (* a missing argument leaves its slot nil *)
-                    ret (fixed ++ [Some (VArr (map (fun o => match o with Some x => x | None => VNull end) vars))])
-                  else ret checked
+                  lift_pure (lambda_args (S (S f)) params lctx (match nm with Some x => x | None => "lambda" end) argv)
               end ;;
             env' <- new_frame (Some lenv) ;;
-            _ <- (fix bindall (names : list string) (vals : list ovalue) : M unit :=
-                    match names with
-                    | [] => ret tt
-                    | x :: r =>
-                        let '(v, vr) := match vals with v :: vr => (v, vr) | [] => (None, []) end in
-                        _ <- bind_var env' x v ;; bindall r vr
-                    end) ps argv' ;;
+            _ <- bind_params env' ps argv' ;;
             eval f body lctx env'
         | CPartial _ fn pargs penv pctx =>
-            '(args, _) <-
-              foldM (fun (st : list ovalue * list ovalue) (a : node) =>
-                       let '(acc, rest) := st in
-                       if is_placeholder a then
-                         match rest with
-                         | v :: r => ret (acc ++ [v], r)
-                         | [] => ret (acc ++ [None], [])
-                         end
-                       else v <- eval f a pctx penv ;; ret (acc ++ [v], rest))
-                    ([], argv) pargs ;;
+            args <- partial_args (fun a => eval f a pctx penv) pargs argv ;;
             call f fn None None args
         | CTransform pat upd del tenv =>
             match argv with
